@@ -229,7 +229,7 @@ package token
 
 // @ func token.QuoteSQLIdent
 // @   props C15
-// @   requires[C15] nonempty: len(s) > 0
+// @   requires[C03,C15] nonempty: len(s) > 0
 // @   ensures[C15] bare: identShaped(s) && !isKeywordFold(s) ==> result == s
 // @   ensures[C15] quoted: !(identShaped(s) && !isKeywordFold(s)) ==> len(result) >= 2 && result[0] == 96 && result[len(result) - 1] == 96
 // @   modifies nothing
